@@ -184,17 +184,17 @@ theorem storeOne_step {s : State} {i k : Nat} {rest : List Nat}
       (Or.inl (by rw [hcC]; simp))
   unfold storeOne
   simp only [hk]
-  have hobj1 := access_objs (classify s i k) i
-  have hbooks1 := access_books (classify s i k) i
-  have hstores1 := access_stores (classify s i k) i
-  have hctx1 := access_ctx (classify s i k) i
-  have hnext1 := access_nextOid (classify s i k) i
-  have htc1 := access_tmpCr (classify s i k) i
-  have hcache1 := access_cache (classify s i k) i
-  have hstr1 := access_str hstrC i
-  have hng1 := access_ok_nonghost (classify s i k) i
-  have herr1 := access_err_state (classify s i k) i
-  generalize access (classify s i k) i = a at *
+  have hobj1 := pickleAccess_objs (classify s i k) i
+  have hbooks1 := pickleAccess_books (classify s i k) i
+  have hstores1 := pickleAccess_stores (classify s i k) i
+  have hctx1 := pickleAccess_ctx (classify s i k) i
+  have hnext1 := pickleAccess_nextOid (classify s i k) i
+  have htc1 := pickleAccess_tmpCr (classify s i k) i
+  have hcache1 := pickleAccess_cache (classify s i k) i
+  have hstr1 := pickleAccess_str hstrC i
+  have hng1 := pickleAccess_ok_nonghost (classify s i k) i
+  have herr1 := pickleAccess_err_state (classify s i k) i
+  generalize pickleAccess (classify s i k) i = a at *
   obtain ⟨a1, a2⟩ := a
   simp only [classify_objs, classify_nextOid, classify_tmpCr, classify_ctx, classify_loadRec]
     at hobj1 hnext1 htc1 hctx1
